@@ -105,6 +105,11 @@ func fixedHistories() [][]KeyHistVersion {
 		{{6, []int{0}}, {7, []int{0, 1}}, {9, []int{1}}, {10, nil}},
 		{{6, []int{0, 1}}, {6, []int{1}}, {9, []int{2, 1}}},
 		{{8, []int{2}}, {9, []int{2}}, {11, []int{3, 4}}, {12, []int{2}}},
+		// time 0 = the version is made before the bugs-edit clock exists in the repository (fresh clone): it
+		// records no time for that clock
+		{{0, []int{0}}},
+		{{0, []int{0}}, {8, []int{1}}},
+		{{0, nil}, {7, []int{0}}},
 	}
 }
 
@@ -158,7 +163,14 @@ func c08Cases(r *mon.Run) []SigCase {
 	counter := int(r.Seed)
 	for hi, h := range c08Histories(r) {
 		first, last := h[0].Time, h[len(h)-1].Time
-		for t := first - 1; t <= last+1; t++ {
+		start := first - 1
+		if first == 0 {
+			start = 5 // a commit needs room below T for its parents
+			if last < 6 {
+				last = 6
+			}
+		}
+		for t := start; t <= last+1; t++ {
 			inForce, vidx := inForceAt(h, t)
 			rel := "before-first"
 			switch {
@@ -585,8 +597,10 @@ func runSigCase(c SigCase) SigResult {
 	var keyed *identity.Identity
 	bugId := ""
 	for k, v := range c.Versions {
-		if err := owner.Repo.Witness(sigClock, lamportTime(v.Time)); err != nil {
-			return herr("witness", err)
+		if v.Time > 0 || k > 0 {
+			if err := owner.Repo.Witness(sigClock, lamportTime(v.Time)); err != nil {
+				return herr("witness", err)
+			}
 		}
 		var keys []*identity.Key
 		for _, idx := range v.Keys {
